@@ -40,6 +40,19 @@ def generate(seed, tier):
         g = progs.ListGen(rng, cfg)
         return g.list_program(gates=("randsz-aggregate",)), g, cfg
     prog, g, cfg = scen.prefer_sat(st, build, lambda o: "K0")
+    k0 = [c for c in prog["classes"] if c["name"] == "K0"][0]
+    dynl = [f for f in k0["fields"] if f["k"] == "l" and not f.get("rsz")]
+    has_dyn = False
+    rng = st.prog
+    if dynl and rng.random() < 0.4:
+        # a foreach inside a dynamic block, referenced from inline blocks only: it is unrolled
+        # through the inline constraint, not through the class's own blocks
+        own_ = [dict(f, _p=[f["n"]]) for f in k0["fields"] if f["k"] == "s"]
+        gd = progs.ListGen(_r.Random(kernel.H(seed, "dynfe")), cfg)
+        gd.enums = prog["enums"]
+        k0["blocks"].append({"n": "dz", "dyn": True,
+                             "stmts": [progs.strip(gd.foreach_scalar(rng.choice(dynl), own_))]})
+        has_dyn = True
     P = refsem.Prog(prog)
     lists = [f for f in P.fields("K0") if f["k"] in ("l", "le")]
     orng = st.ops
@@ -76,7 +89,10 @@ def generate(seed, tier):
         elif r < 0.45:
             ops.append({"op": "randomize", "p": p})
         elif r < 0.6 and own:
-            ops.append({"op": "rw", "p": p, "inline": progs.strip(go.stmts(own, 1, lo=1, hi=1))})
+            inl = progs.strip(go.stmts(own, 1, lo=1, hi=1))
+            if has_dyn and orng.random() < 0.7:
+                inl.append(progs.EXPR({"t": "dynref", "n": "dz", "p": []}))
+            ops.append({"op": "rw", "p": p, "inline": inl})
         else:
             lf = orng.choice(lists)
 
